@@ -2,7 +2,7 @@
    inputs to this function (extracted to OCaml) and to the JAX implementation. *)
 From Coq Require Import ZArith QArith Qcanon List Bool.
 From EXV Require Import Base.Scalar Base.FieldLemmas Base.Cplx Exec.Codec.
-From EXV Require Import Utils.Rollout Gen.ETDRK Gen.Guards Spectral.Symbols Gen.GenericUtils Steppers.Linear Layout.Freq.
+From EXV Require Import Utils.Rollout Gen.ETDRK Gen.Guards Spectral.Symbols Gen.GenericUtils Steppers.Linear Layout.Freq Nonlin.Conv Nonlin.Terms.
 Import ListNotations.
 Local Open Scope Z_scope.
 
@@ -213,10 +213,52 @@ Definition run_c04 (sub : Z) (a : list Q) : list Q :=
   | 6 => [bq (match z 2%nat with 0 => in_left (z 0%nat) (z 1%nat) (z 3%nat) | 1 => in_right (z 0%nat) (z 1%nat) (z 3%nat)
                | _ => in_last (z 0%nat) (z 1%nat) (z 3%nat) end)]
   | 7 => [zq (wrap_index (z 0%nat) (z 1%nat))]
-  | 8 => [bq (dealias_keeps (z 0%nat) (z 1%nat) (z 2%nat) (z 3%nat))]
+  | 8 => [bq (dealias_keeps (z 0%nat) (z 1%nat) (z 2%nat) (z 3%nat)); zq (dealias_K (z 0%nat) (z 1%nat) (z 2%nat))]
   | 9 => map zq (wavenumber_shape (n 0%nat) (z 1%nat))
   | _ => []
   end.
+
+(* ---- C03: nonlinear terms on sparse band-limited spectra over the Gaussian rationals ---- *)
+Fixpoint idx_eqb (a b : list Z) : bool :=
+  match a, b with [], [] => true | x :: a', y :: b' => Z.eqb x y && idx_eqb a' b' | _, _ => false end.
+Fixpoint lookup (l : list (list Z * CQ)) (k : list Z) : CQ :=
+  match l with [] => c0 QcOps | (j, v) :: r => if idx_eqb j k then v else lookup r k end.
+(* args: term D N Kc unused s nparams params... nchan values...   (values: per channel, one (re, im) per band index in bandD order);
+   Kc is the retained band of the implementation's mask; the harness checks Kc <= dealias_K p q N (premise of the alias-free theorems) *)
+Definition run_term (a : list Q) : list Q :=
+  let term := qz (getq a 0) in let D := qn (getq a 1) in let N := qz (getq a 2) in
+  let Kc := qz (getq a 3) in
+  let s := cr (getq a 5) in
+  let np := qn (getq a 6) in
+  let ps := firstn np (skipn 7 a) in
+  let rest := skipn (7 + np) a in
+  let nch := qn (getq rest 0) in
+  let band := bandD D Kc in
+  let nb := length band in
+  let chans := map (fun vs => lookup (combine band vs)) (chunks nb nch (take_cx (skipn 1 rest))) in
+  let g i := cr (getq ps i) in
+  let M := msk CQ Kc in
+  let P2 := prod2 CQ D N Kc in
+  let P3 := prod3 CQ D N Kc in
+  let ND := @fpow CQ (cq_of_z N) D in
+  let ch i := nth i chans (fzero CQ) in
+  let outs : list (field CQ) :=
+    match term with
+    | 1 => conv_mc_cons CQ P2 ciQ s D (g 0%nat) chans
+    | 2 => conv_mc_noncons CQ P2 ciQ s D (g 0%nat) chans
+    | 3 => [conv_sc_cons CQ P2 ciQ s D (g 0%nat) (ch 0%nat)]
+    | 4 => [conv_sc_noncons CQ P2 ciQ s D (g 0%nat) (ch 0%nat)]
+    | 5 => [gradient_norm CQ P2 ciQ s D (g 0%nat) (qb (getq ps 1)) (ch 0%nat)]
+    | 6 => [polynomial CQ M P2 P3 ND (g 0%nat) (g 1%nat) (g 2%nat) (g 3%nat) (ch 0%nat)]
+    | 7 => [general_nonlinear CQ M P2 P3 ciQ s D ND (g 0%nat) (g 1%nat) (g 2%nat) (qb (getq ps 3)) (ch 0%nat)]
+    | 8 => [vorticity_conv CQ P2 ciQ s D (g 0%nat) (ch 0%nat)]
+    | 9 => projected_conv CQ P2 ciQ s D chans
+    | 10 => [cahn_hilliard CQ P3 ciQ s D (g 0%nat) (ch 0%nat)]
+    | 11 => gray_scott CQ M P3 ND (g 0%nat) (g 1%nat) (ch 0%nat) (ch 1%nat)
+    | 12 => leray CQ ciQ s D chans
+    | _ => []
+    end in
+  put_cx (flat_map (fun f => map f band) outs).
 
 Definition run (id : Z) (a : list Q) : list Q :=
   let '(prop, sub) := Z.div_eucl id 100 in
@@ -225,6 +267,7 @@ Definition run (id : Z) (a : list Q) : list Q :=
   | 2 => run_c02 sub a
   | 20 => run_c20 sub a
   | 4 => run_c04 sub a
+  | 3 => match sub with 1 => run_term a | _ => [] end
   | 1 => match sub with 1 => run_sym a | 2 => run_wave a | _ => [] end
   | 13 => match sub with 1 => run_conv a | _ => [] end
   | _ => []
